@@ -8,10 +8,13 @@ CONSTANTS
   Banned = {}
   Asking = {"a3"}
   AskAnswersInHand = TRUE
+  DrainAfterStopped = TRUE
+  FilteredFailAnswers = FALSE
   BufCap = 3
   FixFlushOnStop = TRUE
   MaxResets = 1
   WithStop = TRUE
   Det = TRUE
+  EmitViolating = FALSE
   FaultPoints = {"any", "writer-ask", "reader-holds-reply", "writer-handoff"}
 CHECK_DEADLOCK FALSE
